@@ -120,7 +120,7 @@ func c05Check(cs *core.Case, p rtcp.Packet, where string) {
 
 func runC05(c *core.Ctx) {
 	o := gen.Opts{AllowKF: true, UnalignedSRExt: true}
-	c.Section("values", c.N(160000, 8000000), func(cs *core.Case) {
+	c.Section("values", c.N(1500000, 80000000), func(cs *core.Case) {
 		k := gen.Kind(cs.Idx % uint64(gen.NumKinds))
 		p := gen.Packet(cs.R, k, o)
 		c05Check(cs, p, "value")
@@ -157,7 +157,7 @@ func runC05(c *core.Ctx) {
 			c05Check(cs, p, "residue")
 		}
 	})
-	c.Section("compound", c.N(8000, 300000), func(cs *core.Case) {
+	c.Section("compound", c.N(40000, 3000000), func(cs *core.Case) {
 		p := gen.CompoundValue(cs.R, o)
 		c05Check(cs, p, "compound")
 		for _, m := range *p {
